@@ -286,4 +286,5 @@ SHADOW_BUILTINS = {
     '__sx_mod__': text.sx_mod,
     '__sx_join__': text.sx_join,
     '__sx_fstr__': text.sx_fstr,
+    '__sx_in__': text.sx_in,
 }
